@@ -24,7 +24,7 @@ def roles(ctx):
 
 def managed_bodies(prog):
     return [b for b in prog.bodies.values()
-            if b.path.startswith('deadpool::managed::') or b.path.startswith('<deadpool::managed::')]
+            if b.path.startswith('deadpool::managed::') or b.path.startswith('<deadpool::managed::') or (' as deadpool::managed::' in b.path.split('>::')[0] and str(b.file).startswith('src/'))]
 
 
 def calls_named(body, names):
@@ -662,3 +662,22 @@ def paired_counters(ctx, r, rule, bodies):
                        'after this increment the call can end (%s) without the matching decrement; suspension points in between: lines %s - a get() abandoned there leaves `%s` raised for good' % (', '.join(leaks), ys, f_) if leaks else '',
                        construct='paired-counter:%s' % f_)
     ctx.count('paired_counters_examined', n)
+
+
+def maybe_arms(crate, term):
+    """for a switch on a maybe-value - an Option, or a two-state enum of the crate with one payload variant and one unit variant
+    (`enum Custody { Guarded(T), HandedOn }`) - (target of the arm that holds the value, target of the empty arm); else None"""
+    if term.kind != 'switch' or not term.j.get('variants'):
+        return None
+    arms = dict(term.switch_arms())
+    adt = term.j.get('adt')
+    if adt == 'std::option::Option':
+        return (arms.get('Some'), arms.get('None')) if 'Some' in arms and 'None' in arms else None
+    a_ = crate.adt(adt) if adt else None
+    if a_ is None or len(a_.get('variants', [])) != 2:
+        return None
+    full = [v_['name'] for v_ in a_['variants'] if v_['fields']]
+    empty = [v_['name'] for v_ in a_['variants'] if not v_['fields']]
+    if len(full) == 1 and len(empty) == 1 and full[0] in arms and empty[0] in arms:
+        return arms[full[0]], arms[empty[0]]
+    return None
